@@ -24,11 +24,16 @@ def build(spec):
     return fam, bdf, rdf
 
 
-def digest_fit(spec, fam, bdf, rdf):
+def digest_fit(spec, fam, bdf, rdf, reuse=None):
     from vf import instrument as I
     inp = I.digest(bdf) + I.digest(rdf)
     data = fam.baseline_data(bdf.copy(deep=True))
-    m = fam.fit(fam.new_model(seed=spec["mseed"]), data)
+    m = fam.new_model(seed=spec["mseed"])
+    if reuse is not None:
+        # the model object was used for another meter before (fit + predict)
+        fam.fit(m, fam.baseline_data(reuse[0].copy(deep=True)))
+        fam.predict(m, fam.reporting_data(reuse[1].copy(deep=True)))
+    m = fam.fit(m, data)
     js = m.to_json()
     p = fam.predict(m, fam.reporting_data(rdf.copy(deep=True)))
     pb = fam.predict(m, data) if fam.kind != "caltrack" else p
@@ -75,6 +80,12 @@ def main():
                 s2 = dict(spec, n=spec["n"] + 1000 + item)
                 f2, b2, r2 = build(s2)
                 digest_fit(s2, f2, b2, r2)
+    elif ctx.get("reuse_model_object"):
+        s2 = dict(spec, n=spec["n"] + 5000)
+        f2, b2, r2 = build(s2)
+        if "observed" in b2.columns:
+            b2["observed"] = b2["observed"] * 2.5 + 3.0
+        out.append(digest_fit(spec, fam, bdf, rdf, reuse=(b2, r2)))
     else:
         for _ in range(ctx.get("repeat", 1)):
             out.append(digest_fit(spec, fam, bdf, rdf))
